@@ -206,8 +206,8 @@ pub fn heap_accounting(p: &Pool, what: &str, out: &mut Vec<Viol>) {
                         v("refcount", format!("after {what}: buffer of slot {i} has reference count {rc} but {n} live handle(s)"));
                     }
                     let hdr = ptr - b.base;
-                    if hdr + h.capacity() != b.size {
-                        v("capacity-vs-block", format!("after {what}: slot {i} reports capacity {} but its block has {} bytes after a {hdr}-byte header", h.capacity(), b.size - hdr));
+                    if hdr + h.capacity() > b.size {
+                        v("capacity-vs-block", format!("after {what}: slot {i} reports capacity {} but its block has only {} bytes after a {hdr}-byte header", h.capacity(), b.size - hdr));
                     }
                 }
             }
@@ -256,13 +256,6 @@ pub fn c08(rec: &StepRec, _p: &Pool, out: &mut Vec<Viol>) {
     if rec.d.requests != 0 {
         v("allocates", format!("{:?} of a {:?} string of {} bytes issued {} allocator request(s)", rec.op, s.kind, s.len, rec.d.requests));
     }
-    let expected_frees = match dst_pre {
-        Some(o) if o.kind == Kind::Heap && o.rc == 1 => 1,
-        _ => 0,
-    };
-    if rec.d.frees != expected_frees {
-        v("frees", format!("{:?} released {} block(s), expected {}", rec.op, rec.d.frees, expected_frees));
-    }
     if c.kind != s.kind {
         v("kind", format!("{:?}: source is {:?}, copy is {:?}", rec.op, s.kind, c.kind));
     } else {
@@ -303,7 +296,7 @@ pub fn c09(rec: &StepRec, _p: &Pool, out: &mut Vec<Viol>) {
             let c = rec.post[rec.new_slot.unwrap()].as_ref().unwrap();
             // decoders that guess their capacity from the input length are outside the
             // "exactly one allocation, capacity == len" clause
-            let exact_clause = !matches!(rec.op, Conv(1..=3, _));
+            let exact_clause = !matches!(rec.op, Conv(1..=3, _) | Conv(8..=11, _));
             if c.len <= INLINE {
                 if rec.d.requests != 0 || c.heap_flag || c.kind != Kind::Inline {
                     v("short-ctor", format!("{:?}/{:?}: text of {} bytes issued {} request(s), is_heap_allocated={}", rec.op, rec.form, c.len, rec.d.requests, c.heap_flag));
